@@ -247,12 +247,10 @@ theorem iterate_inv (c : RecCfg V L E) (P : RHyps c) (rc : RunCfg E) (n i : Nat)
       cases s with
       | item l v =>
         simp only []
-        split
-        · exact hinv
-        · rw [cons_files]
-          have hi := storedAt_item c i hs
-          exact ih (i+1) _ fs hinv (live_succ c i hl hi) (by rw [hh, push_lastN, specVals_succ c i hi])
-      | stop l => simp only []; split <;> exact hinv
+        rw [cons_files]
+        have hi := storedAt_item c i hs
+        exact ih (i+1) _ fs hinv (live_succ c i hl hi) (by rw [hh, push_lastN, specVals_succ c i hi])
+      | stop l => exact hinv
     · rw [hld]; simp only [hc, if_true]
       exact compute_inv c P rc hist i (by intro j; rw [hh]; exact P.consistent i j hl) (n+1) i fs hinv hl (Nat.le_refl _)
 
@@ -268,12 +266,12 @@ theorem iterate_spec (c : RecCfg V L E) (P : RHyps c) (nonce : Nat) (n i : Nat) 
       cases s with
       | item l v =>
         have hi := storedAt_item c i hs
-        simp only [RFault.at, Bool.false_eq_true, if_false, cons_obs]
+        simp only [cons_obs]
         rw [ih (i+1) _ fs hinv (live_succ c i hl hi) (by rw [hh, push_lastN, specVals_succ c i hi])]
         simp only [specRun, hi]
       | stop l =>
         have hi := storedAt_stop c i hs
-        simp only [RFault.at, Bool.false_eq_true, if_false, specRun, hi]
+        simp only [specRun, hi]
         rfl
     · rw [hld]; simp only [hc, if_true]
       exact compute_spec c P nonce hist i (by intro j; rw [hh]; exact P.consistent i j hl) (n+1) i fs hinv hl (Nat.le_refl _)
@@ -292,12 +290,10 @@ theorem iterate_resumed (c : RecCfg V L E) (P : RHyps c) (rc : RunCfg E) (n i : 
       | item l v =>
         have hi := storedAt_item c i hs
         simp only [] at hr
-        split at hr
-        · simp at hr
-        · rw [cons_resumed] at hr
-          have := ih (i+1) _ fs hinv (live_succ c i hl hi) (by rw [hh, push_lastN, specVals_succ c i hi]) hr
-          exact ⟨this.1, by omega, this.2.2⟩
-      | stop l => simp only [] at hr; split at hr <;> simp at hr
+        rw [cons_resumed] at hr
+        have := ih (i+1) _ fs hinv (live_succ c i hl hi) (by rw [hh, push_lastN, specVals_succ c i hi]) hr
+        exact ⟨this.1, by omega, this.2.2⟩
+      | stop l => simp at hr
     · rw [hld] at hr; simp only [hc, if_true] at hr
       simp only [Option.some.injEq, Prod.mk.injEq] at hr
       obtain ⟨rfl, rfl⟩ := hr
